@@ -49,6 +49,18 @@ def cases(tier, seed, args):
         out.append(dict(t='fp', kind=['cacgmm', 'cwmm'][i % 2], K=3, D=[8, 7][i % 2], F=1, iterations=[1, 2, 5, 3][i % 4],
                         blur=float([0.0, 0.4, 0.2, 0.45][i % 4]), noise=[1e-3, 2e-3][(i // 2) % 2], seed=int(rng.integers(1 << 30)),
                         gains=bool(i % 3 == 0), gainmode='mixed', E=6, single=True))
+    # classes that are extremely tight (perturbation 1e-7 .. 1e-9 of the prototype scale) - Gaussian models
+    for i in range(6 if q else 36):
+        out.append(dict(t='fp', kind=['gmm', 'gcacgmm', 'gmm'][i % 3], K=2 + i % 3, D=4, F=1 + (i % 3 == 1), iterations=[1, 2, 5][i % 3],
+                        blur=float([0.0, 0.2][i % 2]), noise=[1e-8, 3e-8, 1e-7, 1e-9][(i // 2) % 4], seed=int(rng.integers(1 << 30)), gains=False,
+                        gainmode='mixed', E=4))
+    # the true partition handed over as a boolean / integer one-hot mask
+    for i in range(7 if q else 42):
+        if ml.KINDS[i % 7] in ml.INTEGRATION:
+            continue            # the integration trainers reject integer / boolean affiliations with a casting TypeError
+        out.append(dict(t='fp', kind=ml.KINDS[i % 7], K=3, D=4 if ml.KINDS[i % 7] != 'cbmm' else 3, F=1, iterations=[2, 3, 5, 20][i % 4] if ml.KINDS[i % 7] != 'cbmm' else 2,
+                        blur=0.0, noise=float(10.0 ** rng.uniform(-3, -2)), seed=int(rng.integers(1 << 30)), gains=False, gainmode='mixed', E=4,
+                        init_dtype=['bool', 'int64'][(i // 7) % 2]))
     # process-level state is order dependent: the cases with a small-dimension prehistory run first in the driver process
     out.sort(key=lambda c: 0 if c.get('prehistory') else 1)
     return out
@@ -101,7 +113,10 @@ def run_case(case):
         data['emb'] = emb
     onehot = np.moveaxis(np.eye(K)[lab], -1, -2)
     init = (1 - case['blur']) * onehot + case['blur'] / K
-    fp = f't=fp;model={kind};it={case["iterations"]};gains={case["gains"]};gainmode={case.get("gainmode")}' + (';single' if case.get('single') else '')
+    if case.get('init_dtype'):
+        init = onehot.astype(case['init_dtype'])
+    fp = f't=fp;model={kind};it={case["iterations"]};gains={case["gains"]};gainmode={case.get("gainmode")}' + (';single' if case.get('single') else '') \
+         + (f';init={case["init_dtype"]}' if case.get('init_dtype') else '')
     key = f'fp:{case["seed"]}'
     tkw = case.get('trainer_kw') or {}
     if tkw:
